@@ -1576,7 +1576,26 @@ func runR087(c *core.Ctx) {
 					if ef, ok := inf.Defs[efd.Name].(*types.Func); ok && strings.HasSuffix(ef.Name(), "f") {
 						es := ef.Type().(*types.Signature)
 						if es.Variadic() && es.Params().Len() >= 2 && es.Params().At(es.Params().Len()-2) == pv {
-							c.OK(rel, fn, fmt.Sprintf("format string of %s #%d is the wrapper's own format parameter", f.Name(), ordinalIn(file, call)), call.Pos(), "")
+							// … provided the wrapper forwards it as received: a format extended with run-time text
+							// (format += ": " + cause.Error()) is no longer the constant its callers passed
+							var rewritten []string
+							ast.Inspect(efd.Body, func(m ast.Node) bool {
+								switch y := m.(type) {
+								case *ast.AssignStmt:
+									for _, l := range y.Lhs {
+										if core.ObjOf(inf, l) == types.Object(pv) {
+											rewritten = append(rewritten, c.M.Position(y.Pos()))
+										}
+									}
+								case *ast.UnaryExpr:
+									if y.Op == token.AND && core.ObjOf(inf, y.X) == types.Object(pv) {
+										rewritten = append(rewritten, c.M.Position(y.Pos()))
+									}
+								}
+								return true
+							})
+							c.Check(len(rewritten) == 0, rel, fn, fmt.Sprintf("format string of %s #%d is the wrapper's own format parameter", f.Name(), ordinalIn(file, call)), call.Pos(), "",
+								"the wrapper rewrites its format parameter at "+strings.Join(rewritten, ", ")+" before forwarding it: run-time text becomes part of the format and a % in it is interpreted as a verb")
 							return true
 						}
 					}
